@@ -75,6 +75,7 @@ type Registry struct {
 	opaque     map[string]string // qualified named type -> opaque sort (from spec)
 	ghostVars  map[string]string // ghost variable name -> heap component
 	imm        map[string]bool   // immutable field components (functions of the reference)
+	svComp     map[string]bool   // cache: is this the component of a struct-valued field
 	named      map[string]*namedDef // preds already given a function symbol
 	namedAxiom map[string]string    // defining axiom text -> function symbol
 	namedDeps  map[string]map[string]bool // function symbol -> pred symbols its body applies
@@ -87,7 +88,7 @@ func NewRegistry() *Registry {
 		maps: map[string]*MapInfo{}, structs: map[string]*StructInfo{}, ptrs: map[string]*PtrInfo{},
 		sliceElems: map[string]string{}, boxes: map[string]*BoxInfo{}, strLits: map[string]string{},
 		typeSorts: map[string]string{}, ifaceImpl: map[string]*types.Interface{}, allocOf: map[string]string{},
-		pkgVars: map[string]string{}, opaque: map[string]string{}, ghostVars: map[string]string{}, imm: map[string]bool{}, axiomPkg: map[string]string{},
+		pkgVars: map[string]string{}, opaque: map[string]string{}, ghostVars: map[string]string{}, imm: map[string]bool{}, svComp: map[string]bool{}, axiomPkg: map[string]string{},
 	}
 	r.sortsDecl = append(r.sortsDecl,
 		"(declare-sort Any 0)", "(declare-sort Str 0)", "(declare-sort SRef 0)",
